@@ -2908,10 +2908,625 @@ def exception_scenarios(chk, seen):
     chk.extra["exception_scenarios"] = n
 
 
+# ------------------------------------------------------------------------------------------------
+# RACE PART (Model/C18Race.lean): the asynchronous run under forced schedules of single shared-memory accesses
+# ------------------------------------------------------------------------------------------------
+# The real LocalJob is executed with ITS shared memory instrumented: the JobStatus object and the job are instances of
+# subclasses whose attribute access announces every read/write of `_status`, `_stop_message`, `_running_progress`,
+# `_cancel_requested`, every write of `_results`, every `_worker.is_alive()` and the end of the worker's target, and blocks
+# until the scheduler (the harness thread) grants it.  Exactly one of the two threads (a caller actor thread, the job's
+# own worker thread) runs at any time, so a schedule — the sequence of grants — determines the execution completely: no
+# sleeps, no timing.  None of the job's code is replaced; the instrumentation only waits.
+RACE_R = {"_status": "R_status", "_stop_message": "R_stop_message", "_running_progress": "R_running_progress"}
+RACE_W = {"_status": "W_status", "_stop_message": "W_stop_message", "_running_progress": "W_running_progress"}
+
+
+class RaceSched:
+    def __init__(self):
+        self.roles = {}                    # thread ident -> "C" | "W"
+        self.armed = {"C": False, "W": False}
+        self.posts: queue.Queue = queue.Queue()
+        self.go = {"C": queue.Queue(), "W": queue.Queue()}
+
+    def role(self):
+        return self.roles.get(threading.get_ident())
+
+    def point(self, label, out=None):
+        r = self.role()
+        if r is None or not self.armed[r]:
+            return None
+        self.posts.put((r, "point", label, out))
+        try:
+            tok = self.go[r].get(timeout=2 * WAIT)
+        except queue.Empty:
+            raise Abort()
+        if tok == "abort":
+            raise Abort()
+        return tok
+
+
+def race_classes(sched):
+    from perceval.runtime import LocalJob
+    from perceval.runtime.job_status import JobStatus
+
+    class TracedStatus(JobStatus):
+        def __getattribute__(self, name):
+            if name in RACE_R:
+                sched.point(RACE_R[name])
+            return object.__getattribute__(self, name)
+
+        def __setattr__(self, name, value):
+            if name in RACE_W:
+                sched.point(RACE_W[name])
+            object.__setattr__(self, name, value)
+
+    class WorkerProxy:
+        def __init__(self, th):
+            self._th = th
+
+        def is_alive(self):
+            sched.point("R_alive")
+            return self._th.is_alive()
+
+        def __getattr__(self, name):
+            return getattr(self._th, name)
+
+    class TracedJob(LocalJob):
+        def __getattribute__(self, name):
+            if name == "_cancel_requested":
+                sched.point("R_cancel_requested")
+            elif name == "_worker":
+                th = object.__getattribute__(self, "_worker")
+                return None if th is None else WorkerProxy(th)
+            return object.__getattribute__(self, name)
+
+        def __setattr__(self, name, value):
+            if name == "_cancel_requested":
+                sched.point("W_cancel_requested")
+            elif name == "_results":
+                sched.point("W_results")
+            object.__setattr__(self, name, value)
+
+        def _call_fn_safe(self, *a, **k):
+            if sched.role() is None:              # the worker thread (in synchronous mode it is the caller: untouched)
+                sched.roles[threading.get_ident()] = "W"
+                sched.armed["W"] = True
+                try:
+                    return LocalJob._call_fn_safe(self, *a, **k)
+                finally:
+                    if sys.exc_info()[0] is None:
+                        sched.point("exit")
+                        sched.armed["W"] = False
+                        sched.posts.put(("W", "end", None, {"o": "finished", "sync": None}))
+            return LocalJob._call_fn_safe(self, *a, **k)
+
+    return TracedStatus, TracedJob
+
+
+class RaceRun:
+    """one execution of a race scenario under one schedule.
+    scn = {"cfg", "call", "caller": [actions raced], "task": [task steps], "tail": [actions after the worker's end]}"""
+
+    def __init__(self, scn):
+        self.scn = scn
+        self.sched = RaceSched()
+        TracedStatus, TracedJob = race_classes(self.sched)
+        cfg = scn["cfg"]
+        kwargs = {"delta_parameters": {"command": py_dict(cfg["cmd"]), "mapping": py_dict(cfg["mapping"])},
+                  "command_param_names": [key_name(k) for k in cfg["names"]]}
+        if cfg["map"]:
+            kwargs["result_mapping_function"] = mapping_function
+        self.calls = 0
+        self.task_exc = None
+        self.job = TracedJob(self.task, **kwargs)
+        st = TracedStatus()
+        object.__setattr__(self.job, "_status", st)
+        self.pending = {"C": None, "W": None}     # label of the access each thread is blocked at
+        self.steps = []
+        self.decisions = []
+        self.hung = False
+        self.actor = threading.Thread(target=self.actor_main, daemon=True)
+        self.actor.start()
+
+    # ---- the task function (worker thread) ----
+    def task(self, progress_callback=None, **kw):
+        self.calls += 1
+        if self.calls > 1:
+            return {"results": 424242}
+        out = {"o": "started", "args": canon_dict(kw)}
+        if not callable(progress_callback):
+            out["no_progress_callback"] = True
+        while True:
+            instr = self.sched.point("task", out)
+            if instr is None:
+                raise Abort()
+            if instr["e"] == "prog":
+                ret = progress_callback(instr["p"] / 8, "phase")
+                out = {"o": "progressed", "cb": None, "p": instr["p"], "relay": ret == {"cancel_requested": True}}
+                if ret is not None and ret != {"cancel_requested": True}:
+                    out["returned"] = repr(ret)[:60]
+            elif instr["e"] == "ret":
+                return py_ret(instr["r"])
+            else:
+                self.task_exc = EXC_CLASSES[instr["cls"]](EXC_TEXTS[instr["msg"]])
+                raise self.task_exc
+
+    # ---- the caller actor thread ----
+    def actor_main(self):
+        sc = self.sched
+        sc.roles[threading.get_ident()] = "C"
+        while True:
+            cmd = sc.go["C"].get()
+            if cmd[0] == "quit":
+                return
+            try:
+                if cmd[0] == "exec":
+                    c = cmd[1]
+                    kw = py_dict(c["kw"])
+                    r = self.job.execute_async(*[enc_val(a) for a in c["args"]], **kw)
+                    out = {"o": "accepted"}
+                    if r is not self.job:
+                        out["returned"] = repr(r)[:60]
+                else:
+                    sc.armed["C"] = True
+                    out = self.action(cmd[1])
+            except Abort:
+                return
+            except Exception as e:   # noqa: BLE001
+                out = {"o": "exc", "e": canon_exc(e), "cls": type(e).__name__, "text": str(e)[:120]}
+            sc.armed["C"] = False
+            sc.posts.put(("C", "end", None, out))
+
+    def canon_msg(self, status, msg):
+        if msg is None:
+            return None
+        if self.task_exc is not None and msg == f"{type(self.task_exc).__name__}: {self.task_exc}":
+            return {"task": [EXC_CLASSES.index(type(self.task_exc)), EXC_TEXTS.index(self.task_exc.args[0])]}
+        if msg == "User has canceled the job":     # (the status read before may be older than this read)
+            return "canceled"
+        return {"other": str(msg)[:200]}
+
+    def action(self, a):
+        job = self.job
+        if a == "status":
+            st = job.status
+            name = st.status.name
+            msg = st.stop_message
+            p = st.progress * 8
+            return {"o": "status", "s": name, "msg": self.canon_msg(name, msg), "p": int(p) if p == int(p) else p,
+                    "flags": PREDICATES.get(name, ()), "str": name}
+        if a == "cancel":
+            r = job.cancel()
+            return {"o": "done"} if r is None else {"o": "done", "returned": repr(r)[:60]}
+        r = job.get_results()
+        return {"o": "results", "r": canon_ret(r)}
+
+    # ---- the scheduler ----
+    def await_post(self, role):
+        try:
+            r, kind, label, out = self.sched.posts.get(timeout=WAIT)
+        except queue.Empty:
+            self.hung = True
+            raise HarnessTimeout(f"race scheduler: no announcement from {role} within {WAIT}s")
+        if r != role:
+            raise RuntimeError(f"race scheduler: announcement from {r} while only {role} may run")
+        return kind, label, out
+
+    def do_exec(self):
+        self.sched.go["C"].put(("exec", self.scn["call"]))
+        got = {}
+        while True:
+            try:
+                r, kind, label, out = self.sched.posts.get(timeout=WAIT)
+            except queue.Empty:
+                self.hung = True
+                raise HarnessTimeout("race scheduler: execute_async did not come back")
+            got[r] = (kind, label, out)
+            if "C" in got and (got["C"][2]["o"] != "accepted" or "W" in got):
+                break
+        if "W" in got:
+            self.pending["W"] = got["W"][1]
+        self.steps.append({"ev": dict(self.scn["call"], e="exec"), "acc": "none", "o": got["C"][2],
+                           "pc": None, "pw": self.pw()})
+        return got["C"][2]["o"] == "accepted"
+
+    def pw(self):
+        w = self.pending["W"]
+        return None if w in (None, "task") else w
+
+    def grant(self, role, token, ev):
+        """let `role` perform the access it is blocked at (or start the action / take the task step `token` says)"""
+        acc = self.pending[role] if token == "go" else "none"
+        if acc == "task":
+            acc = "none"
+        self.sched.go[role].put(token)
+        kind, label, out = self.await_post(role)
+        if kind == "point":
+            self.pending[role] = label
+            o = out if label == "task" else None
+        else:
+            self.pending[role] = None
+            o = out
+            if role == "W":
+                th = object.__getattribute__(self.job, "_worker")
+                th.join(WAIT)
+                if th.is_alive():
+                    self.hung = True
+                    raise HarnessTimeout("race scheduler: the worker thread did not end after its last step")
+                self.worker_dead = True
+        self.steps.append({"ev": ev, "acc": acc, "o": o, "pc": self.pending["C"], "pw": self.pw()})
+
+    def run(self, choices, bound=None):
+        scn = self.scn
+        self.worker_dead = False
+        try:
+            accepted = self.do_exec()
+            prog_c = list(scn["caller"]) + list(scn.get("tail", []))
+            n_race = len(scn["caller"])
+            prog_t = list(scn["task"])
+            ic = it = 0
+            last = None
+            k = 0
+            pre = 0
+            while True:
+                en = []
+                if self.pending["C"] is not None or (ic < len(prog_c) and (ic < n_race or self.worker_dead or not accepted)):
+                    en.append("C")
+                if accepted and not self.worker_dead and (self.pending["W"] != "task" or it < len(prog_t)):
+                    en.append("W")
+                if not en:
+                    break
+                opts = ([last] if last in en else []) + [r for r in en if r != last]
+                if k < len(choices) and choices[k] in en:
+                    role = choices[k]
+                else:           # beyond the given schedule (or a stored schedule replayed on code with other step counts)
+                    role = opts[0]
+                self.decisions.append((tuple(opts), role, pre))
+                if last in en and role != last:
+                    pre += 1
+                k += 1
+                if role == "C":
+                    if self.pending["C"] is None:
+                        a = prog_c[ic]
+                        ic += 1
+                        self.grant("C", ("act", a), {"e": "begin", "a": a})
+                    else:
+                        self.grant("C", "go", {"e": "c"})
+                else:
+                    if self.pending["W"] == "task":
+                        t = prog_t[it]
+                        it += 1
+                        self.grant("W", t, {"e": "task", "t": t})
+                    else:
+                        self.grant("W", "go", {"e": "w"})
+                last = role
+        finally:
+            self.close()
+        return self
+
+    def close(self):
+        sc = self.sched
+        sc.go["C"].put(("quit",))
+        for r in ("C", "W"):
+            sc.go[r].put("abort")
+        th = object.__getattribute__(self.job, "_worker")
+        if th is not None and th.is_alive():
+            th.join(1.0)
+        self.actor.join(1.0)
+
+
+def race_word(run):
+    return [s["ev"] for s in run.steps]
+
+
+def race_compare(run, rep, strict=True):
+    """observed schedule vs. model schedule (`rstep`), step by step: the answer of the action / task step that ends there
+    (always); with `strict` also the access performed and the access each thread stands before afterwards.
+    -> None or (index, reason)"""
+    for i, (obs, mod) in enumerate(zip(run.steps, rep["outs"])):
+        if mod.get("o") == "disabled":
+            return i, f"step {obs['ev']} is not enabled in the model"
+        if (obs["o"] is None) != (mod["o"] is None):
+            return i, f"answer: model {mod['o']}, code {obs['o']}"
+        if obs["o"] is not None:
+            r = out_matches(obs["o"], mod["o"])
+            if r:
+                return i, r
+        if (obs["pc"] is None) != (mod["pc"] is None):
+            return i, f"caller idle/busy: model {mod['pc']}, code {obs['pc']}"
+        if (obs["pw"] is None) != (mod["pw"] is None):
+            return i, f"worker waiting for the task / ended: model {mod['pw']}, code {obs['pw']}"
+        if strict:
+            if obs["acc"] != mod["acc"]:
+                return i, f"access performed: model {mod['acc']}, code {obs['acc']}"
+            if obs["pc"] != mod["pc"]:
+                return i, f"next access of the caller: model {mod['pc']}, code {obs['pc']}"
+            if obs["pw"] != mod["pw"]:
+                return i, f"next access of the worker: model {mod['pw']}, code {obs['pw']}"
+    if run.calls != rep["final"]["fnCalls"]:
+        return len(run.steps), f"task function entered {run.calls} times, model {rep['final']['fnCalls']}"
+    return None
+
+
+def race_oracle(scn, run):
+    """The property evaluated directly on what the real job did under this schedule (no model involved)."""
+    steps = run.steps
+    if not steps or steps[0]["o"]["o"] != "accepted":
+        return None
+    if run.calls != 1:
+        return "ran-twice" if run.calls > 1 else "never-ran", f"the task function was entered {run.calls} times"
+    end = next((i for i, s in enumerate(steps) if s["ev"]["e"] == "task" and s["ev"]["t"]["e"] in ("ret", "raise")), None)
+    exit_ = next((i for i, s in enumerate(steps) if s["acc"] == "exit"), None)
+    if end is None or exit_ is None:
+        return None
+    t = steps[end]["ev"]["t"]
+    # the worker's own write of the final status: its first W_status after the task's end
+    wrote = next(i for i in range(end + 1, len(steps)) if steps[i]["ev"]["e"] == "w" and steps[i]["acc"] == "W_status")
+    cancels = [(b, e) for b, e in race_actions(steps) if steps[b]["ev"]["a"] == "cancel"]
+    if t["e"] == "raise":
+        allowed = {"ERROR"}
+        text = f"{EXC_CLASSES[t['cls']].__name__}: {EXC_CLASSES[t['cls']](EXC_TEXTS[t['msg']])}"
+        want_msg = {"ERROR": {"task": [t["cls"], t["msg"]]}}
+        what = f"the task raised {text!r}"
+    else:
+        want_msg = {"SUCCESS": None, "CANCELED": "canceled"}
+        if not cancels:
+            allowed = {"SUCCESS"}
+            what = "the task returned and cancel() was never called"
+        elif any(e < end for _, e in cancels):
+            allowed = {"CANCELED"}
+            what = "cancel() had returned before the task returned"
+        elif all(b > wrote for b, _ in cancels):
+            allowed = {"SUCCESS"}
+            what = "cancel() was called only after the final status had been written"
+        else:
+            allowed = {"SUCCESS", "CANCELED"}
+            what = "cancel() overlapped the end of the task"
+    finals = []
+    for b, e in race_actions(steps):
+        o = steps[e]["o"]
+        if o is None:
+            continue
+        if o["o"] == "status":
+            if b > wrote and o["s"] in ("WAITING", "RUNNING"):
+                return "final-status-not-reported", (f"{what}; the worker had written the final status before the query "
+                                                    f"started, yet job.status says {o['s']}")
+            if e < wrote and o["s"] != "RUNNING":
+                return "not-running-in-flight", f"job.status says {o['s']} before the worker has written a final status"
+            if o["s"] in ("SUCCESS", "ERROR", "CANCELED"):
+                finals.append((e, o))
+                if o["s"] not in allowed:
+                    return "async-final-status-wrong", (f"{what}; a status query overlapping the worker's last steps reports "
+                                                       f"{o['s']} (stop_message {o['msg']})" if e < exit_ + 1 or b < exit_ else
+                                                       f"{what}; job.status reports {o['s']} (stop_message {o['msg']})")
+                if b > exit_ and o["msg"] != want_msg[o["s"]]:
+                    return "final-message-wrong", (f"{what}; after the worker's end job.status is {o['s']} with "
+                                                   f"stop_message {o['msg']}")
+                if b > exit_ and o["s"] == "SUCCESS" and o["p"] != 8:
+                    return "success-progress-not-full", f"{what}; SUCCESS with progress {o['p']}/8"
+        if o["o"] == "results" and e < wrote:
+            return "results-while-running", "get_results() handed out a value before the worker had written a final status"
+        if o["o"] == "exc" and o["e"] in ("notAvailable", "failed", "runtime?") and t["e"] == "ret" and t["r"]["t"] in ("dict", "dlist"):
+            return "results-unavailable-after-final-status", (
+                f"{what}; get_results() raised {o.get('cls')}: {o.get('text')} although a final status had been read "
+                f"(the status must not be final before the task's value is stored)")
+        if o["o"] == "exc" and o["e"] == "stillRunning" and b > wrote:
+            return "final-status-not-reported", "get_results() says 'still running' although the final status had been written"
+    if len({o["s"] for _, o in finals}) > 1:
+        return "async-final-status-wrong", f"{what}; two final statuses were reported: {[o['s'] for _, o in finals]}"
+    if t["e"] == "ret":
+        exp = expected_results(scn["cfg"], t["r"], ({}, {k: v for k, v in scn["cfg"]["mapping"]}))
+        vals = [steps[e]["o"]["r"] for b, e in race_actions(steps) if steps[e]["o"] and steps[e]["o"]["o"] == "results"]
+        if exp is not None:
+            for v in vals:
+                if v not in exp:
+                    return "results-value-wrong", f"get_results() returned {v}, the task returned {norm_ret(t['r'])}"
+    return None
+
+
+def race_cancel_overlaps(run):
+    steps = run.steps
+    end = next((i for i, s in enumerate(steps) if s["ev"]["e"] == "task" and s["ev"]["t"]["e"] == "ret"), None)
+    if end is None:
+        return False
+    wrote = next((i for i in range(end + 1, len(steps)) if steps[i]["ev"]["e"] == "w" and steps[i]["acc"] == "W_status"), None)
+    if wrote is None:
+        return False
+    cancels = [(b, e) for b, e in race_actions(steps) if steps[b]["ev"]["a"] == "cancel"]
+    return bool(cancels) and not any(e < end for _, e in cancels) and not all(b > wrote for b, _ in cancels)
+
+
+def race_actions(steps):
+    """(index of the begin step, index of the step that ends the action) of every caller action"""
+    out, b = [], None
+    for i, s in enumerate(steps):
+        if s["ev"]["e"] == "begin":
+            b = i
+        if b is not None and s["ev"]["e"] in ("begin", "c") and s["o"] is not None:
+            out.append((b, i))
+            b = None
+    return out
+
+
+def race_note(chk, scn, run):
+    steps = run.steps
+    chk.branch("race")
+    end = next((i for i, s in enumerate(steps) if s["ev"]["e"] == "task" and s["ev"]["t"]["e"] in ("ret", "raise")), None)
+    exit_ = next((i for i, s in enumerate(steps) if s["acc"] == "exit"), None)
+    if end is None or exit_ is None:
+        return
+    wrote = next(i for i in range(end + 1, len(steps)) if steps[i]["ev"]["e"] == "w" and steps[i]["acc"] == "W_status")
+    for b, e in race_actions(steps):
+        a = steps[b]["ev"]["a"]
+        if b < wrote and e > exit_:
+            chk.branch(f"race-{a}-spans-worker-end")
+        if wrote < b < exit_ or wrote < e < exit_:
+            chk.branch(f"race-{a}-during-stop-run")
+        if a == "cancel" and end < e and b < wrote:
+            chk.branch("race-cancel-between-return-and-final-write")
+        if a == "status" and steps[e]["o"] and steps[e]["o"].get("msg") is None and steps[e]["o"].get("s") in ("ERROR", "CANCELED"):
+            chk.branch("race-observed-status-before-message")
+    chk.branch("race-raise" if steps[end]["ev"]["t"]["e"] == "raise" else "race-return")
+
+
+def race_explore(scn, bound, cap):
+    """all schedules of the scenario with at most `bound` preemptions (None: all), depth first, at most `cap`; stateless
+    (every schedule is a fresh execution of the real job)."""
+    prefix = []
+    n = 0
+    while True:
+        run = RaceRun(scn).run(prefix)
+        yield run
+        n += 1
+        if cap and n >= cap:
+            return
+        dec = run.decisions
+        i = len(dec) - 1
+        while i >= 0:
+            opts, chosen, pre = dec[i]
+            j = opts.index(chosen)
+            if j + 1 < len(opts) and (bound is None or j > 0 or pre + 1 <= bound):
+                prefix = [d[1] for d in dec[:i]] + [opts[j + 1]]
+                break
+            i -= 1
+        if i < 0:
+            return
+
+
+def race_scn_sig(scn, run):
+    return ("race", json.dumps([scn["cfg"], scn["caller"], [t["e"] for t in scn["task"]]], sort_keys=True),
+            "".join(d[1] for d in run.decisions))
+
+
+def race_judge(chk, scn, run, reps):
+    """-> None | (kind, sig, what, index)"""
+    v = race_oracle(scn, run)
+    if v is not None:
+        return "violation", v[0], v[1], None
+    cmp_t = race_compare(run, reps[0])
+    if cmp_t is None:
+        return None
+    if race_compare(run, reps[0], strict=False) is None:
+        # same number of accesses per action, same answers everywhere, only WHICH field is touched at some step differs
+        # (two independent accesses in the other order): counted, shown in the evidence, not a failure
+        chk.branch("race-access-order-differs-from-model")
+        chk.count("race-access-order", cmp_t[1])
+        return None
+    if race_cancel_overlaps(run):
+        # cancel() overlapped the worker's steps between the task's return and its write of the final status: SUCCESS and
+        # CANCELED are both truthful there (the direct oracle has accepted the outcome); which one it is depends on the
+        # order of the worker's private steps, which the model fixes as the code has them today — counted, not a failure
+        chk.branch("race-cancel-window-outcome-differs-from-model")
+        return None
+    if reps[1] is not None and race_compare(run, reps[1]) is None:
+        chk.branch("race-code-is-the-version-before-the-fix")
+        return None          # the code is, access by access, the version before fixes/C18-status-race.diff: its defect is
+                             # reported by the direct oracle on the schedules where it shows, not as a model mismatch
+    return "broken", "race-model-code-disagree", f"step {cmp_t[0]} ({run.steps[cmp_t[0]]['ev']}): {cmp_t[1]}", cmp_t[0]
+
+
+RACE_CFGS = {
+    "plain": {"names": [1], "cmd": [], "mapping": [], "map": False, "cb": False},
+    "map": {"names": [1], "cmd": [], "mapping": [[2, 3]], "map": True, "cb": False},
+}
+RACE_CALL = {"args": [5], "kw": [], "cbkw": False}
+RACE_TAIL = ["status", "get", "status"]
+
+
+def race_scenarios_list(chk):
+    ret = {"e": "ret", "r": {"t": "dict", "v": 7}}
+    out = []
+    for cname, caller in (("status", ["status"]), ("get", ["get"]), ("cancel-status", ["cancel", "status"]),
+                          ("status-status", ["status", "status"]), ("cancel", ["cancel"])):
+        for tname, task in (("raise", [{"e": "raise", "cls": 0, "msg": 1}]), ("ret", [ret]),
+                            ("prog-ret", [{"e": "prog", "p": 3}, ret]),
+                            ("prog-raise", [{"e": "prog", "p": 5}, {"e": "raise", "cls": 2, "msg": 2}])):
+            cfg = RACE_CFGS["map" if cname in ("get", "status-status") else "plain"]
+            out.append((f"{cname}/{tname}", {"cfg": cfg, "call": RACE_CALL, "caller": caller, "task": task,
+                                             "tail": RACE_TAIL}))
+    return out
+
+
+def race_handle_runs(chk, scn, runs, seen, name):
+    """compare a batch of executed schedules of one scenario with the model, judge them, report the smallest failure"""
+    reqs = [{"op": "race", "fixed": True, "cfg": scn["cfg"], "word": race_word(r)} for r in runs]
+    reps = chk.lean.ask_many(reqs)
+    bad = [i for i, (r, rep) in enumerate(zip(runs, reps)) if "err" in rep or race_compare(r, rep) is not None]
+    reps_old = {}
+    if bad:
+        for i, rep in zip(bad, chk.lean.ask_many([dict(reqs[i], fixed=False) for i in bad])):
+            reps_old[i] = rep
+    fails = []
+    for i, (run, rep) in enumerate(zip(runs, reps)):
+        if "err" in rep:
+            raise RuntimeError(f"race driver rejected a schedule: {rep['err']}")
+        race_note(chk, scn, run)
+        chk.case(race_scn_sig(scn, run), nontrivial=any(d[2] > 0 for d in run.decisions) or len(run.decisions) > 0,
+                 sample={"race": name, "schedule": "".join(d[1] for d in run.decisions)})
+        res = race_judge(chk, scn, run, (rep, reps_old.get(i)))
+        if res is not None:
+            fails.append((res, run))
+    by_sig = {}
+    for res, run in fails:
+        key = (res[0], res[1])
+        pre = sum(1 for a, b in zip(run.decisions, run.decisions[1:]) if a[1] != b[1])
+        cur = by_sig.get(key)
+        if cur is None or (pre, len(run.steps)) < cur[0]:
+            by_sig[key] = ((pre, len(run.steps)), res, run)
+        chk.count("failures", f"{res[0]}:{res[1]}")
+    for (kind, sig), (_, res, run) in by_sig.items():
+        if not seen.wanted(kind, sig):
+            seen.sigs[("seen", kind, sig)] = seen.sigs.get(("seen", kind, sig), 0) + 1
+            continue
+        seen.sigs[("seen", kind, sig)] = seen.sigs.get(("seen", kind, sig), 0) + 1
+        schedule = "".join(d[1] for d in run.decisions)
+        # confirm by replaying the very schedule on a fresh job
+        again = RaceRun(scn).run(list(schedule))
+        v2 = race_oracle(scn, again) if kind == "violation" else ("x",)
+        if v2 is None:
+            seen.sigs[("unreproduced", kind, sig)] = seen.sigs.get(("unreproduced", kind, sig), 0) + 1
+            continue
+        trace_txt = " ".join(f"{s['ev']['e'][0] if s['ev']['e'] != 'task' else 'T'}:{s['acc']}" for s in run.steps)
+        chk.fail(kind, sig, f"race scenario {name}, schedule {schedule} (C = caller thread, W = worker thread, one shared-"
+                            f"memory access per letter): {res[2]}.  Accesses: {trace_txt}",
+                 {"race": {"scn": scn, "schedule": schedule, "name": name}})
+
+
+def race_part(chk, seen):
+    """exhaustive schedules (bounded number of preemptions) of the fixed race scenarios + random schedules"""
+    bound = chk.pick(2, 3)
+    cap = chk.pick(400, 6000)
+    total = 0
+    sizes = {}
+    for name, scn in race_scenarios_list(chk):
+        heavy = name.split("/")[1] in ("prog-ret", "prog-raise") or name.startswith("status-status")
+        b = bound - 1 if (heavy and not chk.thorough) else bound
+        runs = list(race_explore(scn, b, cap))
+        sizes[name] = {"preemptions<=": b, "schedules": len(runs), "complete": len(runs) < cap}
+        total += len(runs)
+        race_handle_runs(chk, scn, runs, seen, name)
+        chk.branch("race-exhaustive")
+    chk.extra["race_schedules"] = sizes
+    chk.extra["race_schedules_total"] = total
+    for scn in load_race_corpus():
+        run = RaceRun(scn["scn"]).run(list(scn["schedule"]))
+        race_handle_runs(chk, scn["scn"], [run], seen, scn.get("name", "corpus"))
+        chk.branch("race-corpus")
+
+
+def load_race_corpus():
+    out = []
+    for p in sorted(glob.glob(os.path.join(core.VERIF, "corpus", "C18", "race-*.json"))):
+        out.append(json.load(open(p))["race"])
+    return out
+
+
 def load_corpus():
     out = []
     for p in sorted(glob.glob(os.path.join(core.VERIF, "corpus", "C18", "*.json"))):
         d = json.load(open(p))
+        if "race" in d:
+            continue
         if "jobs" in d:
             out.append({"jobs": d["jobs"], "nest": d.get("nest")})
         elif "sampler" in d:
@@ -2940,10 +3555,11 @@ def setup(chk):
     threading.excepthook = quiet_abort
     chk.lean = core.LeanDriver("C18")
     chk.assumptions = [
-        "atomic steps are whole API calls of the caller and whole steps of the task function; races inside "
-        "one Python API call between the worker thread and the caller thread (bytecode interleavings on the "
-        "shared JobStatus, e.g. a status query between start_run() and Thread.start()) are NOT covered — "
-        "neither the model nor the lock-step harness can exhibit them (named residue, DESIGN 7/C18, 9)",
+        "history part: atomic steps are whole API calls of the caller and whole steps of the task function. RACE part: "
+        "atomic steps are single accesses to the memory the two threads share (an access = one attribute read/write of "
+        "the JobStatus / job object, Thread.is_alive(), the worker's end); ONE caller thread; execute_async itself is "
+        "atomic (no worker exists before Thread.start(); a second caller thread querying between start_run() and "
+        "Thread.start() is outside the model); no user callback in the race part",
         "the task's exceptions are subclasses of Exception (what _call_fn_safe catches); a task leaving through "
         "SystemExit/KeyboardInterrupt is outside the model",
         "the task function accepts the keyword arguments it is given; the result mapping function is total",
@@ -2974,7 +3590,13 @@ def run(chk: core.Check):
                 "loop (the task decides its own steps with the real cancel_requested, policy raise/stop/ignore; fixed "
                 "scenarios + random); SAMPLER jobs on local SLOS / CliffordClifford2017 processors: every (backend, method) "
                 "x way of passing max_samples x sync/call/async x iterations overriding the conversion arguments x cancel "
-                "before / from the callback, fixed + random, compared with the model on the preset configuration")
+                "before / from the callback, fixed + random, compared with the model on the preset configuration; RACE part "
+                "(Model/C18Race): the asynchronous run with the job's shared memory instrumented (every read/write of "
+                "JobStatus._status/_stop_message/_running_progress, LocalJob._cancel_requested, write of _results, "
+                "Thread.is_alive(), end of the worker) and a scheduler that grants ONE access at a time: for 20 scenarios "
+                "(status | get_results | cancel;status | status;status | cancel raced against raise | return | progress;return "
+                "| progress;raise) ALL schedules with at most `race_schedules[..].preemptions<=` preemptions are executed on "
+                "the real job, compared access by access with the model and judged directly")
     chk.required_branches = ["sync", "async", "in-flight-sync", "in-flight-async", "cb-action-async",
                              "cancel-before-return", "cancel-after-return", "cancel-relayed", "callback-invoked",
                              "raise", "propagate", "rejected-args", "exec-twice-rejected", "positional", "keyword",
@@ -3006,7 +3628,11 @@ def run(chk: core.Check):
                              "sampler-async", "sampler-how-pos", "sampler-how-kw", "sampler-how-nothing",
                              "sampler-how-posKw", "sampler-how-pos2", "sampler-how-kwx", "sampler-iterated",
                              "sampler-iterated-conversion", "sampler-iteration-overrides-mapping", "sampler-rejected",
-                             "sampler-cancel-raise", "sampler-cancel-return"]
+                             "sampler-cancel-raise", "sampler-cancel-return",
+                             "race", "race-exhaustive", "race-corpus", "race-raise", "race-return",
+                             "race-status-spans-worker-end", "race-get-spans-worker-end",
+                             "race-status-during-stop-run", "race-get-during-stop-run",
+                             "race-cancel-between-return-and-final-write", "race-observed-status-before-message"]
     for scn in load_corpus():
         chk.branch("corpus")
         if "jobs" in scn:
@@ -3024,6 +3650,7 @@ def run(chk: core.Check):
     extension_scenarios(chk, seen)
     coop_scenarios(chk, seen)
     sampler_part(chk, seen)
+    race_part(chk, seen)
     # exhaustive interleavings
     # (task events incl. start and end, caller actions); the first (positional) configuration gets the
     # large bound, the two other ways of passing the argument a smaller one
@@ -3104,6 +3731,11 @@ def replay(chk, data):
         return
     if "sampler" in rp:
         handle_sampler(chk, rp["sampler"], seen)
+        return
+    if "race" in rp:
+        r = rp["race"]
+        run = RaceRun(r["scn"]).run(list(r["schedule"]))
+        race_handle_runs(chk, r["scn"], [run], seen, r.get("name", "replay"))
         return
     if "jobs" in rp:
         chk.branch("replay-group")
